@@ -308,7 +308,10 @@ def _parse_directive_options(
             value = None
         try:
             converted_value = converter(value)
-        except (ValueError, TypeError) as error:
+        except Exception as error:
+            # docutils documents ValueError / TypeError for a bad value,
+            # but its own converters also fail in other ways on an empty one
+            # (e.g. ``figwidth_value(None)`` raises AttributeError)
             validation_errors.append(
                 ParseWarnings(
                     f"Invalid option value for {name!r}: {value}: {error}",
